@@ -295,7 +295,7 @@ pub fn check_make_undo(class: u8, what: u8) {
         assert!(g.plies == pre.plies + 1);
         assert!(g.history.len() == 1);
         let h = &g.history[0];
-        assert!(h.mv == Some(c.mv) && h.captured == c.captured_on_to && h.halfmove_clock == pre.halfmove_clock);
+        assert!(h.mv == Some(c.mv) && h.captured == c.captured_on_to && u64::from(h.halfmove_clock) == u64::from(pre.halfmove_clock));
         assert!(rights_arr(&h.castle_rights) == rights_arr(&pre.castle_rights) && h.en_passant_target == pre.en_passant_target);
         assert!(h.zobrist == pre.zobrist && h.incremental_eval.phase_value == pre.incremental_eval.phase_value
             && h.incremental_eval.piece_square_tables == pre.incremental_eval.piece_square_tables);
@@ -391,7 +391,7 @@ make_undo_harness!(vk_c02_make_undo_promo, PROMO, 0);
 make_undo_harness!(vk_c02_make_undo_cap_promo, CAP_PROMO, 0);
 
 //@ obligation: C03.step.quiet
-//@ property: C03
+//@ property: C03 C11
 //@ domain: complete
 //@ harness: vk_c03_step_quiet
 //@ functions: chess/game.rs::Game::make_move, chess/zobrist.rs::ZobristHash::toggle_piece_on_square, chess/zobrist.rs::ZobristHash::toggle_castle_rights, chess/zobrist.rs::ZobristHash::set_en_passant, chess/zobrist.rs::ZobristHash::toggle_side_to_play
@@ -401,7 +401,7 @@ make_undo_harness!(vk_c02_make_undo_cap_promo, CAP_PROMO, 0);
 //@ assumes: the key is only ever combined by XOR and never branched on (scan of zobrist.rs / game.rs); bits of a component word are treated uniformly
 make_undo_harness!(vk_c03_step_quiet, QUIET, 1);
 //@ obligation: C03.step.capture
-//@ property: C03
+//@ property: C03 C11
 //@ domain: complete
 //@ harness: vk_c03_step_capture
 //@ functions: chess/game.rs::Game::make_move
@@ -409,7 +409,7 @@ make_undo_harness!(vk_c03_step_quiet, QUIET, 1);
 //@ mem_gb: 4
 make_undo_harness!(vk_c03_step_capture, CAPTURE, 1);
 //@ obligation: C03.step.en_passant
-//@ property: C03
+//@ property: C03 C11
 //@ domain: complete
 //@ harness: vk_c03_step_en_passant
 //@ functions: chess/game.rs::Game::make_move
@@ -417,7 +417,7 @@ make_undo_harness!(vk_c03_step_capture, CAPTURE, 1);
 //@ mem_gb: 4
 make_undo_harness!(vk_c03_step_en_passant, EN_PASSANT, 1);
 //@ obligation: C03.step.castle_kingside
-//@ property: C03
+//@ property: C03 C11
 //@ domain: complete
 //@ harness: vk_c03_step_castle_k
 //@ functions: chess/game.rs::Game::make_move
@@ -425,7 +425,7 @@ make_undo_harness!(vk_c03_step_en_passant, EN_PASSANT, 1);
 //@ mem_gb: 4
 make_undo_harness!(vk_c03_step_castle_k, CASTLE_K, 1);
 //@ obligation: C03.step.castle_queenside
-//@ property: C03
+//@ property: C03 C11
 //@ domain: complete
 //@ harness: vk_c03_step_castle_q
 //@ functions: chess/game.rs::Game::make_move
@@ -433,7 +433,7 @@ make_undo_harness!(vk_c03_step_castle_k, CASTLE_K, 1);
 //@ mem_gb: 4
 make_undo_harness!(vk_c03_step_castle_q, CASTLE_Q, 1);
 //@ obligation: C03.step.promotion
-//@ property: C03
+//@ property: C03 C11
 //@ domain: complete
 //@ harness: vk_c03_step_promo
 //@ functions: chess/game.rs::Game::make_move
@@ -441,7 +441,7 @@ make_undo_harness!(vk_c03_step_castle_q, CASTLE_Q, 1);
 //@ mem_gb: 4
 make_undo_harness!(vk_c03_step_promo, PROMO, 1);
 //@ obligation: C03.step.capture_promotion
-//@ property: C03
+//@ property: C03 C11
 //@ domain: complete
 //@ harness: vk_c03_step_cap_promo
 //@ functions: chess/game.rs::Game::make_move
@@ -558,7 +558,7 @@ fn init_contract(board: &crate::chess::board::Board) -> IncrementalEvalFields {
 }
 
 //@ obligation: C03.base.from_state
-//@ property: C03 C15
+//@ property: C03 C15 C11
 //@ domain: complete
 //@ functions: chess/game.rs::Game::from_state
 //@ timeout: 900
